@@ -37,4 +37,44 @@ def lookupOk (snap : List FrameSnap) (k : Key) (result : Option Nat) : Bool :=
   | some h => snap.any fun f => f.handle == h && carries k f
   | none => !(snap.any (carries k))
 
+/-!
+## Independence: a frame changes only when somebody edits that frame
+
+"Lookups in one matrix are never influenced by the contents or history of any other matrix": what a
+matrix holds can change under the feet of its user only through the frame objects it shares with
+others.  The judge keeps, per frame object (handle), what its own history says about it - the
+identifier and format last written to it or last seen, and the names it may carry (the name last
+seen, plus the targets of the renamings since: a renaming addresses one matrix, and the judge does
+not need to know which) - and compares every snapshot with that.
+-/
+
+structure Known where
+  handle : Nat
+  id : Nat
+  ext : Bool
+  names : List String
+  deriving Repr
+
+inductive Edit
+  | create (h : Nat) (name : String) (id : Nat) (ext : Bool)
+  | setId (h id : Nat) (ext : Bool)
+  | rename (old new : String)
+  | none
+
+def noteEdit (ks : List Known) : Edit → List Known
+  | .create h name id ext => { handle := h, id := id, ext := ext, names := [name] } :: ks.filter (·.handle != h)
+  | .setId h id ext => ks.map fun k => if k.handle == h then { k with id := id, ext := ext } else k
+  | .rename old new => ks.map fun k => if k.names.contains old then { k with names := new :: k.names } else k
+  | .none => ks
+
+/-- every frame of the snapshot that the judge has met before still is what its own history says -/
+def snapAgrees (ks : List Known) (snap : List FrameSnap) : Bool :=
+  snap.all fun f =>
+    match ks.find? (·.handle == f.handle) with
+    | none => true
+    | some k => k.id == f.id && k.ext == f.ext && k.names.contains f.name
+
+def noteSnap (ks : List Known) (snap : List FrameSnap) : List Known :=
+  snap.foldl (fun ks f => { handle := f.handle, id := f.id, ext := f.ext, names := [f.name] } :: ks.filter (·.handle != f.handle)) ks
+
 end CanVerif.Spec
